@@ -100,6 +100,55 @@ Theorem C27_u128_pow_correct : forall fuel a e, wf a -> e < 2 ^ 32 ->
 Proof. exact u128_pow_fuel_correct. Qed.
 Print Assumptions C27_u128_pow_correct.
 
+(* math.sw Power for u8/u16/u32/u64 (EXP + the `> Self::max()` check): a^e when it fits the width, else a
+   revert (revert(0) or the VM overflow panic of EXP) *)
+Theorem C27_pow_correct : forall w a e, w <= 64 -> a < 2 ^ w ->
+  match pow_narrow w default_flags a e with
+  | Ret r => a ^ e < 2 ^ w /\ r = a ^ e
+  | Rev _ | Vmp _ => 2 ^ w <= a ^ e
+  | Oof => False
+  end.
+Proof. exact pow_narrow_df. Qed.
+Print Assumptions C27_pow_correct.
+
+(* ops.sw: u8/u16/u32 + - * (64-bit instruction, then the range check) *)
+Theorem C27_narrow_ops_correct : forall w a b, w <= 32 -> a < 2 ^ w -> b < 2 ^ w ->
+  narrow_op w default_flags ADD a b = (if a + b <? 2 ^ w then Ret (a + b) else Rev 0) /\
+  narrow_op w default_flags SUB a b = (if b <=? a then Ret (a - b) else Vmp ArithmeticOverflow) /\
+  narrow_op w default_flags MUL a b = (if a * b <? 2 ^ w then Ret (a * b) else Rev 0).
+Proof.
+  intros w a b Hw Ha Hb. split; [|split].
+  - apply narrow_add_df; assumption.
+  - apply narrow_sub_df; assumption.
+  - apply narrow_mul_df; assumption.
+Qed.
+Print Assumptions C27_narrow_ops_correct.
+
+(* ops.sw wrapping_add / wrapping_sub / wrapping_mul for u8/u16/u32 (w <= 32) and u64: modular, never revert *)
+Theorem C27_wrapping_ops_correct : forall w a b, w <= 32 -> a < 2 ^ w -> b < 2 ^ w ->
+  wrapping_narrow w default_flags ADD a b = Ret ((a + b) mod 2 ^ w) /\
+  wrapping_narrow w default_flags SUB a b = Ret ((2 ^ w + a - b) mod 2 ^ w) /\
+  wrapping_narrow w default_flags MUL a b = Ret ((a * b) mod 2 ^ w).
+Proof.
+  intros w a b Hw Ha Hb. split; [|split].
+  - apply wrapping_add_narrow; assumption.
+  - apply wrapping_sub_narrow; assumption.
+  - apply wrapping_mul_narrow; assumption.
+Qed.
+Print Assumptions C27_wrapping_ops_correct.
+
+Theorem C27_wrapping_u64_correct : forall a b, a < 2 ^ 64 -> b < 2 ^ 64 ->
+  wrapping_u64 default_flags ADD a b = Ret ((a + b) mod 2 ^ 64) /\
+  wrapping_u64 default_flags SUB a b = Ret ((2 ^ 64 + a - b) mod 2 ^ 64) /\
+  wrapping_u64 default_flags MUL a b = Ret ((a * b) mod 2 ^ 64).
+Proof.
+  intros a b Ha Hb. split; [|split].
+  - apply wrapping_add_u64.
+  - apply wrapping_sub_u64; assumption.
+  - apply wrapping_mul_u64.
+Qed.
+Print Assumptions C27_wrapping_u64_correct.
+
 Theorem C27_u128_log2_correct : forall a, wf a ->
   if val a =? 0 then u128_log2 default_flags a = Rev FAILED_ASSERT_SIGNAL
   else exists r, u128_log2 default_flags a = Ret r /\ wf r /\
